@@ -116,6 +116,7 @@ struct Scen {
     max_memory: Option<usize>,
     fw: Option<f64>,
     entries: Vec<(String, u64, u128, u64, usize)>, // key val age hits size  (queue order)
+    handle_delay: u128, // time between building the cache handle and using it: ns (sync engines) / s (async)
     orphans: Vec<String>,
     ops: Vec<Vec<String>>,
 }
@@ -184,6 +185,19 @@ fn dump_t(out: &mut Vec<String>, c: &ThreadLocalCache<V>, t_ref: Instant) {
 fn run_core(s: &Scen) -> Vec<String> {
     let mut out = Vec::new();
     let pol = policy(&s.policy);
+    // entries are planted with their age at the moment the handle is built; the handle is then used `handle_delay` later
+    let delay_cap: u128 = if s.flavour == "A" { 4 } else { 4_000_000_000 };
+    if s.handle_delay > delay_cap {
+        out.push("unrepresentable delay between building and using the handle".into());
+        return out;
+    }
+    let s = &{
+        let mut s2 = s.clone();
+        for e in s2.entries.iter_mut() {
+            e.2 = e.2.saturating_sub(s.handle_delay);
+        }
+        s2
+    };
     match s.flavour.as_str() {
         "G" => {
             GMAP.write().clear();
@@ -205,6 +219,7 @@ fn run_core(s: &Scen) -> Vec<String> {
                 GORDER.lock().push_back(k.clone());
             }
             let c = GlobalCache::new(&GMAP, &GORDER, s.limit, s.max_memory, pol, s.ttl, s.fw, &GSTATS);
+            if s.handle_delay > 0 { std::thread::sleep(Duration::from_nanos(s.handle_delay as u64)); }
             for op in &s.ops {
                 match op[0].as_str() {
                     "get" => match c.get(&op[1]) {
@@ -244,6 +259,7 @@ fn run_core(s: &Scen) -> Vec<String> {
                 AORDER.lock().push_back(k.clone());
             }
             let c = AsyncGlobalCache::new(&*AMAP, &*AORDER, s.limit, s.max_memory, pol, s.ttl, s.fw, &*ASTATS);
+            if s.handle_delay > 0 { std::thread::sleep(Duration::from_secs(s.handle_delay as u64)); }
             for op in &s.ops {
                 match op[0].as_str() {
                     "get" => match c.get(&op[1]) {
@@ -285,6 +301,7 @@ fn run_core(s: &Scen) -> Vec<String> {
                 TORDER.with(|q| q.borrow_mut().push_back(k.clone()));
             }
             let c = ThreadLocalCache::new(&TMAP, &TORDER, s.limit, s.max_memory, pol, s.ttl, s.fw);
+            if s.handle_delay > 0 { std::thread::sleep(Duration::from_nanos(s.handle_delay as u64)); }
             for op in &s.ops {
                 match op[0].as_str() {
                     "get" => match c.get(&op[1]) {
@@ -395,6 +412,7 @@ fn main() {
             "max_memory" => cur.max_memory = opt(&t[1]),
             "fw" => cur.fw = opt(&t[1]),
             "entry" => cur.entries.push((t[1].clone(), t[2].parse().unwrap(), t[3].parse().unwrap(), t[4].parse().unwrap(), t[5].parse().unwrap())),
+            "handle_delay" => cur.handle_delay = t[1].parse().unwrap(),
             "orphan" => cur.orphans.push(t[1].clone()),
             "op" => cur.ops.push(t[1..].to_vec()),
             "cthread" => {
